@@ -218,6 +218,7 @@ static std::string step(const Toks& t)
 	if (op == "trimmed" && na == 0) return show(c.trimmed());
 	if (op == "concat" && na == 1) { Exact d(unhex(t[1])); String e = S(d); return both(show(c + e), show(c + (const char*)d.p)); }
 	if (op == "concatc" && na == 1) return show(c + (char)num(t[1]));
+	if (op == "rconcatc" && na == 1) return show((char)num(t[1]) + c);
 	if (op == "rconcat" && na == 1) { Exact d(unhex(t[1])); return show((const char*)d.p + c); }
 	if (op == "split" && na == 1) { Exact d(unhex(t[1])); if (d.n == 0) return "err empty"; return showList(c.split(S(d))); }
 	if (op == "splitjoin" && na == 1) { Exact d(unhex(t[1])); if (d.n == 0) return "err empty"; String sep = S(d); return show(c.split(sep).join(sep)); }
